@@ -13,6 +13,12 @@ PROP = "C17"
 MODULES = ["RuschmProofs.C17"]
 
 
+# (text, must be last): forms that fail before evaluation starts
+SYNTAX_FAULTS = [("(if)", False), ("(lambda)", False), ("(define)", False), (")", False), ("(let ((x)) x)", False),
+                 ("(quote)", False), ("#\\nosuchchar", False), ("(define-syntax)", False), ("(let ((x 1) . 2) x)", False),
+                 ("(display 1", True), ('(display "abc', True), ("(list 1 (list 2)", True), ("#(1 2", True)]
+
+
 def gen_program(rng):
     g = P.Gen(rng, ticks=False, max_depth=3)
     forms = ["(import (scheme base) (scheme write))"]
@@ -30,6 +36,12 @@ def gen_program(rng):
     if rng.random() < 0.5:
         shown, pos, kind, ctx = P.inject_fault(rng, g, shown)
         fault = (pos + 1, kind)
+    if fault is None and rng.random() < 0.4:
+        # a form rejected by the lexer / reader / expander (not at run time): what the earlier forms displayed must still be there
+        bad, at_end = rng.choice(SYNTAX_FAULTS)
+        pos = len(shown) if at_end else rng.randrange(0, len(shown) + 1)
+        shown = shown[:pos] + [bad] + shown[pos:]
+        fault = (pos + 1, "syntax")
     forms += shown
     sep = rng.choice(["\n", "\n", "\r\n", "\n\n", " "])
     text = sep.join(forms) + rng.choice(["", "\n", "\r\n"])
@@ -124,7 +136,8 @@ def main(tier, seed):
     rep = C.Report(PROP, tier, seed)
     rng = random.Random(seed)
     rep.cov["rule"] = ("random programs that import the standard libraries, define, compute and display (strings with parentheses and "
-                       "semicolons included), half of them with one injected fault (8 kinds x 6 contexts) at a random position, "
+                       "semicolons included), half of them with one injected run-time fault (8 kinds x 6 contexts) at a random position, a fifth "
+                       "with a form rejected before evaluation (malformed special form, stray parenthesis, bad literal, unclosed form at end of file), "
                        "joined by LF / CRLF / blank lines / blanks, with or without final newline; plus a missing file, a directory, "
                        "a non-UTF-8 file, an empty file, CR LF inside a string literal; each run through the built binary from "
                        "another working directory; distinct = distinct program texts")
